@@ -17,7 +17,7 @@ if __name__ == "__main__":
 import vlib
 from vlib import hx, unhx
 
-ITEMS = ["ctype", "strleaf", "entities", "special", "scanners_re", "consts", "srcpos", "nodes"]
+ITEMS = ["ctype", "strleaf", "entities", "special", "scanners_re", "consts", "srcpos", "nodes", "inlines_audit"]
 LEAF = ("Paragraph", "Heading", "TableCell")
 
 
@@ -340,6 +340,64 @@ def random_docs(rng, n):
     return out
 
 
+DEF_PIECES = [b"[a]", b"[A b]", b"[a\\]b]", b"[ c ]", b"[]", b"[\xc3\x89]", b":", b": ", b":\n", b" /u", b"<u v>", b"<>", b"/u(1)", b" 't'", b' "t"', b" (t)", b'\n"t"',
+              b"\n 't'", b' "t\n t"', b" junk", b"\n", b"\n", b"  ", b"\\", b"[a]: /first\n", b"[a]: /second 'x'\n", b"text", b"[a]", b"[ref]: <x>\n", b" 't' x\n"]
+
+
+def tie_refdefs(c, n, profile="debug"):
+    """Model parse_reference_inline / resolve_reference_link_definitions against the compiled parser on documents
+    that are ONE paragraph made of definition pieces: the paragraph left after the block phase must be the model's
+    rest, and every label the parser resolves must map to the model's (url, title)."""
+    rng = c.rng
+    docs = []
+    for _ in range(n):
+        d = b"".join(rng.choice(DEF_PIECES) for _ in range(rng.choice([3, 4, 5, 6, 8])))
+        d = d.lstrip(b" \n")
+        while bytes([10, 10]) in d:
+            d = d.replace(bytes([10, 10]), bytes([10]))
+        d = d.rstrip(b"\n")
+        if d.strip():
+            docs.append(d)
+    cases = [("-", d) for d in docs]
+    real = vlib.run_lines(vlib.VH[profile], harness_lines(cases), timeout=900)
+    rm = refmaps(cases, profile)
+    lines, keep = [], []
+    for i, (d, a) in enumerate(zip(docs, real)):
+        sp = split_answer(a)
+        if sp is None:
+            continue
+        blocks = parse_tree(sp[1], with_extra=True)
+        # only documents the block phase sees as one paragraph (or nothing): the content is the text as written
+        if len(blocks.ch) > 1 or (blocks.ch and blocks.ch[0].kind != "Paragraph"):
+            continue
+        if any(l.startswith(b" ") or l.startswith(b"\t") for l in d.split(b"\n")):
+            continue       # leading spaces are stripped by the block phase: the content is not the text as written
+        refs = rm.get(i, ())
+        reftoks = "".join(f" {hx(l)} {hx(u)} {hx(t)}" for (l, u, t) in refs)
+        lines.append(f"refdefs {hx(d if d.endswith(bytes([10])) else d + bytes([10]))} {len(refs)}{reftoks} {' '.join(sp[2])}")
+        keep.append((d, blocks, len(refs)))
+    model = vlib.run_lines(vlib.DRIVER, lines, timeout=900)
+    agree = bad = withdefs = 0
+    for (d, blocks, nrefs), m, line in zip(keep, model, lines):
+        c.count(b"refdefs:" + d, len(d) > 6)
+        want_rest = unhx(blocks.ch[0].extra["C"]) if blocks.ch else b""
+        ok = False
+        if m.startswith("ok "):
+            rest, nent, nchk, nbad = m[3:].split(" ")
+            got = unhx(rest)
+            ok = nbad == "0" and (got == want_rest or (not blocks.ch and not got.strip()))
+            if int(nent) > 0:
+                withdefs += 1
+        if ok:
+            agree += 1
+        else:
+            bad += 1
+            if bad <= 3:
+                c.problem("correspondence", "inlines.refdefs", f"md={d!r}: model {m[:200]} impl rest={want_rest!r} refs={nrefs}", {"md": hx(d), "line": line[:3000]})
+    c.cov["correspondences"]["inlines: reference definitions (parse_reference_inline)"] = {"documents": len(keep), "agree": agree, "with_definitions": withdefs}
+    return bad == 0
+
+
 def tie_inlines(c, tier, profile="debug"):
     """correspondence `inlines.<scope>`; returns True when every compared block agrees"""
     import docgen, shrink
@@ -402,6 +460,7 @@ def main(tier):
     if not c.phase_builds(("debug",)):
         c.finish(rule="build failed")
     tie_inlines(c, tier)
+    tie_refdefs(c, 40000 if tier != "quick" else 6000)
     c.finish(level="proof",
              rule="per leaf block (Paragraph, Heading, TableCell) of every document: the model run on the block content after the block phase "
                   "must print the same children (kinds, payloads, source positions) as the final tree of the compiled parser, and report "
